@@ -369,6 +369,9 @@ def run():
         add_test(sk, "generated-like", tp + "2", tp + "1", None, None, "k", cp + "0", cp + "2", cp + "1")
         add_test(sk, "generated-like", "t", tp + "0", None, None, "k", "a", "b", "c")
         add_test(sk, "generated-like", "t", tp + "1", None, tp + "0", "k", "a", cp + "0", "c")
+    # the open finding F33 (case variants of generated names), always in the skeleton with the most generated CTEs
+    for vn in (tp[:-2].lower() + tp[-2:].upper() + "0", tp.capitalize() + "1"):
+        add_test("split3", "table", vn, "u", None, None, "k", "a", "b", "c")
     for c1 in (cp + "0", cp + "1", "a", cp + "2"):
         add_test("split-dup", "generated-like", "t", "u", None, None, "k", c1, "b", "c")
 
